@@ -1,12 +1,12 @@
 (** C08 — evaluation of implementation traces: correspondence (the model run on the observed
-    call, with the keeper-level body replaced by what was observed) and the property predicate
-    [Pb] on the observed call itself. *)
+    call — after the observed earlier steps of the same transaction — with the keeper-level body
+    replaced by what was observed) and the property predicate [Pb] on the observed call itself. *)
 From Coq Require Import List ZArith Bool String.
 Import ListNotations.
 Require Import Nib.C08.Model Nib.C08.Spec.
 Local Open Scope Z_scope.
 
-Record case := {
+Record call := {
   c_reached : bool;        (* the wrapper got as far as the precompile (no depth / balance / write-protection rejection) *)
   c_pc : pcid;
   c_kind : kind;
@@ -23,10 +23,21 @@ Record case := {
   o_mint_panic : bool     (* the recovered Go panic was sdkmath's "integer overflow" under bank.MintCoins *)
 }.
 
-(** body oracle read off the observation; state = number of writes *)
-Definition obs_body (c : case) : mid -> list arg -> Z -> Z -> bres Z :=
+(** an earlier step of the same transaction (same StateDB): a journaled EVM state change (value transfer
+    between accounts, SSTORE, log) or another precompile call with what was observed of it *)
+Inductive pre := PEvm | PCall (c : call).
+
+(** a case = the call under test and the steps of the transaction that preceded it *)
+Record case := {
+  c_pre : list pre;
+  c_call : call;
+  c_drop_eq : bool    (* observed: the same transaction without its failed earlier calls commits the same state and gives the call under test the same outcome *)
+}.
+
+(** body oracle read off the observation; both sides of the state = number of writes *)
+Definition obs_body (c : call) : mid -> list arg -> Z * Z -> Z -> bres (Z * Z) :=
   fun _ _ st lim =>
-    let st' := if o_state_eq c then st else st + 1 in
+    let st' := if o_state_eq c then st else (fst st, snd st + 1) in
     match o_class c with
     | Ok => BOk st' (lim - o_left c)
     | Err => BErr st' 0
@@ -34,13 +45,27 @@ Definition obs_body (c : case) : mid -> list arg -> Z -> Z -> bres Z :=
     | Panic => if o_oog_panic c then BOog st' else if o_mint_panic c then BMint st' two256 0 else BErr st' 0
     end.
 
-Definition obs_after : mid -> list arg -> Z -> Z -> bres Z := fun _ _ st _ => BErr st 0.
+Definition obs_after : mid -> list arg -> Z * Z -> Z -> bres (Z * Z) := fun _ _ st _ => BErr st 0.
+(** state-changing methods leave EVM journal entries (ERC20 calls, logs of the emitted ABCI events) *)
+Definition obs_touch : mid -> list arg -> Z * Z -> bool := fun m _ _ => can_mutate m.
 
-Definition model_result (F : facts) (c : case) : result Z :=
-  evm_call Z (obs_body c) obs_after (fun st _ => st + 1) F (c_pc c) (c_kind c) (c_value c) (c_gas c) (c_inp c) 0.
+Definition run_call (F : facts) (c : call) (x : txstate Z Z) : xresult Z Z :=
+  call_x Z Z (obs_body c) obs_after obs_touch (fun ev _ => ev + 1) F (c_pc c) (c_kind c) (c_value c) (c_gas c) (c_inp c) x.
+
+Definition run_pre (F : facts) (x : txstate Z Z) (s : pre) : txstate Z Z :=
+  match s with
+  | PEvm => {| x_ev := x_ev x + 1; x_ms := x_ms x; x_j := JEvm :: x_j x; x_cnt := x_cnt x |}   (* = step … (OEvm (fun ev => ev + 1)) *)
+  | PCall c => if c_reached c then xr_x (run_call F c x) else x
+  end.
+
+Definition x_start : txstate Z Z := {| x_ev := 0; x_ms := 0; x_j := []; x_cnt := 0 |}.
+
+(** the state the earlier steps leave, and the model's answer for the call under test *)
+Definition state_before (F : facts) (c : case) : txstate Z Z := fold_left (run_pre F) (c_pre c) x_start.
+Definition model_result (F : facts) (c : case) : xresult Z Z := run_call F (c_call c) (state_before F c).
 
 (** gas the body must at least / exactly have used when the call succeeded *)
-Definition body_gas_ok (F : facts) (c : case) : bool :=
+Definition body_gas_ok (F : facts) (c : call) : bool :=
   match o_class c, selected (pc_of F (c_pc c)) (c_inp c), required_gas F (pc_of F (c_pc c)) (cap4_of (c_kind c) (c_inp c)) (c_inp c), i_unpack (c_inp c) with
   | Ok, Some mf, GGas rq, Some args =>
       let g1 := c_gas c - rq in
@@ -49,16 +74,22 @@ Definition body_gas_ok (F : facts) (c : case) : bool :=
   | _, _, _, _ => true
   end.
 
-Definition mismatch (F : facts) (c : case) : bool :=
-  let r := model_result F c in
-  c_reached c && negb (outcome_eqb (r_out r) (o_class c)
-        && (outcome_eqb (o_class c) Panic || (r_left r =? o_left c))
-        && (negb (r_st r =? 0) || o_state_eq c || outcome_eqb (o_class c) Panic)
+Definition mismatch (F : facts) (cs : case) : bool :=
+  let c := c_call cs in
+  let x := state_before F cs in
+  let r := model_result F cs in
+  let unchanged := (x_ev (xr_x r) =? x_ev x) && (x_ms (xr_x r) =? x_ms x) in
+  c_reached c && negb (outcome_eqb (xr_out r) (o_class c)
+        && (outcome_eqb (o_class c) Panic || (xr_left r =? o_left c))
+        && (negb unchanged || o_state_eq c || outcome_eqb (o_class c) Panic)
         && body_gas_ok F c).
 
-Definition case_method (F : facts) (c : case) : option method_facts := selected (pc_of F (c_pc c)) (c_inp c).
+Definition case_method (F : facts) (c : call) : option method_facts := selected (pc_of F (c_pc c)) (c_inp c).
 
-Definition violates (F : facts) (c : case) : bool :=
+(** [Pb] on the call under test: "state as before" = as the earlier steps of the transaction left it *)
+Definition violates (F : facts) (cs : case) : bool :=
+  let c := c_call cs in
   c_reached c && negb (Pb (c_kind c) (c_value c) (c_gas c) (case_method F c) (o_class c) (o_left c) (o_state_eq c) (o_core_eq c)
         && Pb_nested (c_kind c) (case_method F c) (o_class c) (o_state_eq c)
-        && Pb_gas (o_class c) (c_gas c) (o_left c) (o_cost c)).
+        && Pb_gas (o_class c) (c_gas c) (o_left c) (o_cost c)
+        && Pb_tx (c_drop_eq cs)).
